@@ -89,6 +89,44 @@ def variants(doc, tx, rnd):
     return res
 
 
+def twice_pairs():
+    """one macro pasted at two places that are related (same method, URLs with a common parameterised prefix, same
+    project): (name, inlined text, macro text).  Pasting twice equals writing the body twice."""
+    def ind(lines, n):
+        return "".join("  " * n + x + "\n" for x in lines)
+    payloads = {
+        "path_decl": (["Path", "{", '  "zp": 1', "}"], "url2"),
+        "description": (["Description", "  pasted text"], "method"),
+        "response": (["200 any"], "method"),
+        "query": (["Query", "{", '  "zq": 1', "}"], "method"),
+        "headers": (["Headers", "{", '  "zh": "v"', "}"], "response"),
+        "type": (["TYPE @ztw any"], "top"),
+        "server": (["SERVER @zsv", '  BaseUrl "http://z"'], "top"),
+        "get_method": (["GET", "  200 any"], "url_same"),
+    }
+    res = []
+    for nm, (body, where) in payloads.items():
+        mac = "MACRO @ztw\n(\n" + ind(body, 1) + ")\n"
+
+        def doc(a, b):
+            if where == "url2":
+                return ("URL /ztw/{zp}\n" + a(1) + "  GET\n    200 any\nURL /ztw/{zp}/more\n" + b(1) + "  GET\n    200 any\n")
+            if where == "method":
+                return "GET /ztw\n" + a(1) + b(1) + ("" if nm == "response" else "  201 any\n")
+            if where == "response":
+                return "GET /ztw\n  201 any\n" + a(2) + b(2)
+            if where == "url_same":
+                return "URL /ztw\n" + a(1) + b(1)
+            return a(0) + b(0)
+        inl = "JSIGHT 0.3\n" + doc(lambda n: ind(body, n), lambda n: ind(body, n))
+        mcr = "JSIGHT 0.3\n" + mac + doc(lambda n: ind(["PASTE @ztw"], n), lambda n: ind(["PASTE @ztw"], n))
+        once = "JSIGHT 0.3\n" + mac + doc(lambda n: ind(["PASTE @ztw"], n), lambda n: "")
+        once_inl = "JSIGHT 0.3\n" + doc(lambda n: ind(body, n), lambda n: "")
+        res.append((nm + "_twice", inl, mcr))
+        res.append((nm + "_once", once_inl, once))
+    return res
+
+
 def reject_cases(doc, rnd):
     """-> list of (name, document) that must be rejected"""
     t1 = {"t": "type", "name": "@zq", "annot": "", "body": {"k": "int", "n": "", "props": [], "allOf": []}}
@@ -163,6 +201,27 @@ def main(tier):
             chk.violation("%s must be rejected with a diagnostic in bounded time, observed: %s | document:\n%s" % (
                 nm, rel.describe(o), text[-700:]),
                 {"kind": "macro_reject", "variant": nm, "doc": m["doc"], "file": text, "observed": o, "signature": sig}, sig)
+    tw = twice_pairs()
+    tobs = harness("run", [rel.case("ti%d" % k, a) for k, (_, a, _) in enumerate(tw)] + [rel.case("tm%d" % k, b) for k, (_, _, b) in enumerate(tw)])
+    for k, (nm, inl, mcr) in enumerate(tw):
+        a, b = tobs["ti%d" % k], tobs["tm%d" % k]
+        chk.evaluations += 1
+        chk.traces += 1
+        chk.nontrivial.add(mcr)
+        bad = None
+        if b["outcome"] in ("panic", "fatal", "timeout"):
+            bad = "macro form: %s" % rel.describe(b)
+        elif b["outcome"] == "ok":
+            if a["outcome"] != "ok":
+                bad = "macro form accepted but the inlined document is not: %s" % rel.describe(a)
+            elif json.loads(a["json"]) != json.loads(b["json"]):
+                bad = "catalog of the macro form differs from the inlined document: %s" % rel.json_diff(a["json"], b["json"])
+        if bad:
+            sig = {"variant": nm, "what": bad.split(":")[0][:60], "frames": ",".join(b.get("frames") or [])}
+            chk.violation("%s (%s) | macro form:\n%s" % (bad, nm, mcr[:1500]),
+                          {"kind": "macro_pair", "variant": nm, "doc": [], "inlined": inl, "macro_form": mcr,
+                           "observed_inlined": a, "observed_macro": b, "signature": sig}, sig)
+    chk.extra["pasted_twice_pairs"] = {nm: (tobs["ti%d" % k]["outcome"], tobs["tm%d" % k]["outcome"]) for k, (nm, _, _) in enumerate(tw)}
     import macrograph
     macrograph.run(chk, tier, "C07")
     import treemacro
